@@ -505,7 +505,7 @@ pub fn run_c14(tier: &str) -> Outcome {
     let mut progs: Vec<(Vec<PCmd>, bool)> = vec![]; // (program, render with every style?)
     let maxlen = if quick { 3 } else { 5 };
     for len in 1..=maxlen {
-        for p in programs::<3>(len, &full_ids, if len <= 2 { 4 } else { 3 }, 3) {
+        for p in programs::<3>(len, &full_ids, if len <= 3 { 4 } else { 3 }, 3) {
             progs.push((p, len <= 2));
         }
     }
@@ -599,7 +599,7 @@ pub fn run_c14(tier: &str) -> Outcome {
         acc.failures.retain(|f| !f.signature.starts_with("machinery:"));
     }
     let rule = format!(
-        "PROGGEN: every program of <= {maxlen} ADD/BIND/PUT commands over ids {{0,1,2,$a,$b}}, labels {{foo, α1, x}} (and the single non-ASCII letter ρ in programs of <= 2 commands), data {{1, 8, 9 bytes}} (and of {rl_from}..={rl_to} commands over {{0,$a}}) whose direct execution respects the graph preconditions; each rendered with a menu of 13 legal formattings, programs of <= 2 commands with the full product of 1728 (whitespace, spaces before the parenthesis, ν-prefixes, $ν1-style names, hex case/dashes/blanks/line breaks inside the literal, comments containing ; ( #, empty commands, final semicolon); the programs over a reduced alphabet also on Sodg<1>; oracle: complete internal state after deploy_to == state after the same calls made directly, count == number of commands. PLUS every single-character deletion/replacement/insertion ({} fault characters) at every position of every program of <= {} commands over a reduced alphabet in two renderings, judged by a conservative reference parser: well-formed -> equals its own direct calls; definitely malformed at command i -> Err, no panic, graph == commands 0..i; grey -> no demand. distinct_nontrivial = texts with a settled class",
+        "PROGGEN: every program of <= {maxlen} ADD/BIND/PUT commands over ids {{0,1,2,$a,$b}}, labels {{foo, α1, x}} (and the single non-ASCII letter ρ in programs of <= 3 commands), data {{1, 8, 9 bytes}} (and of {rl_from}..={rl_to} commands over {{0,$a}}) whose direct execution respects the graph preconditions; each rendered with a menu of 13 legal formattings, programs of <= 2 commands with the full product of 1728 (whitespace, spaces before the parenthesis, ν-prefixes, $ν1-style names, hex case/dashes/blanks/line breaks inside the literal, comments containing ; ( #, empty commands, final semicolon); the programs over a reduced alphabet also on Sodg<1>; oracle: complete internal state after deploy_to == state after the same calls made directly, count == number of commands. PLUS every single-character deletion/replacement/insertion ({} fault characters) at every position of every program of <= {} commands over a reduced alphabet in two renderings, judged by a conservative reference parser: well-formed -> equals its own direct calls; definitely malformed at command i -> Err, no panic, graph == commands 0..i; grey -> no demand. distinct_nontrivial = texts with a settled class",
         FAULTS.len(),
         if quick { 2 } else { 4 }
     );
